@@ -65,5 +65,10 @@ for name in sorted(res):
 caught = sum(1 for v, _ in res.values() if v.startswith("caught"))
 out.append("")
 out.append(f"{caught} of {len(res)} mutants caught by the quick check of their property.")
+try:
+    out.append("")
+    out.append(open(os.path.join(HERE, "mutants", "NOTES.md")).read())
+except Exception:
+    pass
 open(os.path.join(HERE, "tools", "section10.md"), "w").write("\n".join(out) + "\n")
 print("\n".join(out)[:3000])
